@@ -907,7 +907,7 @@ func (m *intraProxyManager) ReconcilePeerStreams(peerNodeName string) {
 		// Collect keys to close for receivers
 		var receiversToClose []peerStreamKey
 		for key := range ps.receivers {
-			if _, ok2 := desiredReceivers[key]; !ok2 {
+			if p, ok2 := desiredReceivers[key]; !ok2 || p != peer {
 				receiversToClose = append(receiversToClose, key)
 			}
 		}
@@ -917,7 +917,7 @@ func (m *intraProxyManager) ReconcilePeerStreams(peerNodeName string) {
 		// Collect keys to close for senders
 		var sendersToClose []peerStreamKey
 		for key := range ps.senders {
-			if _, ok2 := desiredSenders[key]; !ok2 {
+			if p, ok2 := desiredSenders[key]; !ok2 || p != peer {
 				sendersToClose = append(sendersToClose, key)
 			}
 		}
